@@ -117,6 +117,9 @@ type aofRun struct {
 	rewrites int
 	restores int
 	acked    int
+	minDl    map[string]int64 // db/key -> earliest deadline it ever carried (acknowledged states)
+	randKeys map[string]bool  // db/key touched by a write command whose effect is random by design (SPOP)
+	skipped  int
 }
 
 var runCounter atomic.Int64
@@ -170,7 +173,61 @@ func (a *aofRun) boot(dir string) bool {
 }
 
 func (a *aofRun) dump() map[string]string {
-	return DataMap(a.inst.DB.VerifDump(), false)
+	m := DataMap(a.inst.DB.VerifDump(), false)
+	if a.minDl == nil {
+		a.minDl = map[string]int64{}
+	}
+	for k, v := range m {
+		if i := strings.LastIndex(v, " @"); i >= 0 {
+			if ms, err := strconv.ParseInt(v[i+2:], 10, 64); err == nil {
+				if old, ok := a.minDl[k]; !ok || ms < old {
+					a.minDl[k] = ms
+				}
+			}
+		}
+	}
+	return m
+}
+
+// avoidRewrite applies the avoid classes of open findings to a command: returns (args, skip).
+func (a *aofRun) avoidRewrite(args []string) ([]string, bool) {
+	name := strings.ToUpper(args[0])
+	rel := name == "EXPIRE" || name == "PEXPIRE"
+	abs := name == "EXPIREAT" || name == "PEXPIREAT"
+	absIdx := -1
+	if abs && len(args) > 2 {
+		absIdx = 2
+	}
+	if name == "SET" || name == "GETEX" {
+		for i := 2; i < len(args); i++ {
+			switch strings.ToUpper(args[i]) {
+			case "EX", "PX":
+				rel = true
+			case "EXAT", "PXAT":
+				abs = true
+				absIdx = i + 1
+			}
+		}
+	}
+	if name == "SPOP" && Avoiding(a.p, a.prop+"/nondeterministic-replay") {
+		return args, true
+	}
+	if rel && Avoiding(a.p, a.prop+"/deadline-drift") {
+		return args, true
+	}
+	if abs && absIdx > 0 && absIdx < len(args) && Avoiding(a.p, a.prop+"/expired-key-replay") {
+		// keep the command but move the deadline out of reach of every clock advance of the plan
+		if v, err := strconv.ParseInt(args[absIdx], 10, 64); err == nil {
+			out := append([]string{}, args...)
+			shift := int64(10000000)
+			if name == "PEXPIREAT" || (absIdx > 0 && strings.ToUpper(args[absIdx-1]) == "PXAT") {
+				shift *= 1000
+			}
+			out[absIdx] = strconv.FormatInt(v+shift, 10)
+			return out, false
+		}
+	}
+	return args, false
 }
 
 func nowMs() int64 { return time.Now().UnixMilli() }
@@ -222,6 +279,21 @@ func (a *aofRun) recover(image string, minIdx int, extra []map[string]string, ho
 	}
 	want := prev[len(prev)-1]
 	diff := DiffData(got, strip(want), "restored", "expected", 5)
+	// known root causes are recognised against EVERY admissible state, not only the last one
+	cands := append([]map[string]string{}, extra...)
+	for j := minIdx; j < len(prev); j++ {
+		if j >= 0 {
+			cands = append(cands, prev[j])
+		}
+	}
+	for _, root := range []string{"deadline-drift", "expired-key-replay", "nondeterministic-replay"} {
+		for _, c := range cands {
+			if a.equalModulo(root, got, strip(c), now) {
+				a.fail(root, fmt.Sprintf("%s: restored dataset differs from an admissible state only by %s (sync=%s): %s", how, root, a.p.SK("sync"), DiffData(got, strip(c), "restored", "expected", 5)))
+				return false
+			}
+		}
+	}
 	if matched >= 0 {
 		a.fail(a.classify("missing-acked", how, got, strip(want)), fmt.Sprintf("%s: restored dataset equals the state after acknowledged write #%d but writes up to #%d were acknowledged and had to survive (sync=%s): %s", how, matched, len(prev)-1, a.p.SK("sync"), diff))
 	} else {
@@ -230,8 +302,82 @@ func (a *aofRun) recover(image string, minIdx int, extra []map[string]string, ho
 	return false
 }
 
+// equalModulo: are got and want equal once the differences explained by a known root cause are ignored?
+func (a *aofRun) equalModulo(root string, got, want map[string]string, now int64) bool {
+	body := func(v string) string {
+		if i := strings.LastIndex(v, " @"); i >= 0 {
+			return v[:i]
+		}
+		return v
+	}
+	keys := map[string]bool{}
+	for k := range want {
+		keys[k] = true
+	}
+	for k := range got {
+		keys[k] = true
+	}
+	n := 0
+	for k := range keys {
+		if got[k] == want[k] {
+			continue
+		}
+		n++
+		switch root {
+		case "deadline-drift":
+			if got[k] == "" || want[k] == "" || body(got[k]) != body(want[k]) {
+				return false
+			}
+		case "expired-key-replay":
+			deadlineOnly := got[k] != "" && want[k] != "" && body(got[k]) == body(want[k])
+			if dl, ok := a.minDl[k]; (!ok || dl > now) && !deadlineOnly {
+				return false
+			}
+		case "nondeterministic-replay":
+			if !a.randKeys[k] {
+				return false
+			}
+		}
+	}
+	return n > 0
+}
+
 // classify refines the anomaly with what differs (wrong db, deadline drift, retyped, lost...)
 func (a *aofRun) classify(anomaly, how string, got, want map[string]string) string {
+	// expiry-related root causes get their own signatures (independent of the crash site)
+	now := nowMs()
+	allDeadline, allExpiring, ndiff := true, true, 0
+	keys := map[string]bool{}
+	for k := range want {
+		keys[k] = true
+	}
+	for k := range got {
+		keys[k] = true
+	}
+	body := func(v string) string {
+		if i := strings.LastIndex(v, " @"); i >= 0 {
+			return v[:i]
+		}
+		return v
+	}
+	for k := range keys {
+		if got[k] == want[k] {
+			continue
+		}
+		ndiff++
+		if got[k] == "" || want[k] == "" || body(got[k]) != body(want[k]) {
+			allDeadline = false
+		}
+		if dl, ok := a.minDl[k]; !ok || dl > now {
+			allExpiring = false
+		}
+	}
+	if ndiff > 0 && allDeadline {
+		return "deadline-drift"
+	}
+	if ndiff > 0 && allExpiring {
+		return "expired-key-replay"
+	}
 	kind := "data"
 	for k, w := range want {
 		g, ok := got[k]
@@ -305,6 +451,7 @@ func runAOF(t *testing.T, p *Plan, prop string) *Outcome {
 		o.Sig = prop + "/panic/" + topRepoFrame(br.stack)
 		o.Detail = fmt.Sprintf("%v\n%s", br.panicVal, br.stack)
 	}
+	o.Skipped = a.skipped
 	o.Class = p.SK("sync") + "|" + strings.Join(a.names, ",")
 	o.Sample = map[string]any{"restores_checked": a.restores, "acked": a.acked, "rewrites": a.rewrites, "sync": p.SK("sync")}
 	if prop == "C09" && a.rewrites == 0 {
@@ -385,8 +532,25 @@ func (a *aofRun) runSeq() {
 			if len(args) == 0 {
 				continue
 			}
+			if op.Kind == "" {
+				var skip bool
+				if args, skip = a.avoidRewrite(args); skip {
+					a.skipped++
+					continue
+				}
+			}
 			a.names = append(a.names, strings.ToUpper(args[0]))
 			c := a.client(op)
+			if strings.ToUpper(args[0]) == "SPOP" && len(args) > 1 {
+				if a.randKeys == nil {
+					a.randKeys = map[string]bool{}
+				}
+				db := a.embdb
+				if c.TCP {
+					db = a.tcpdb
+				}
+				a.randKeys[fmt.Sprintf("%d/%s", db, args[1])] = true
+			}
 			mode := ""
 			if arm != nil {
 				mode = arm.S
